@@ -260,12 +260,9 @@ fn replace_call_expr_if_csi_method_with_member(
         //  b) String.prototype.substring.[call|apply](a) -> __datadog_token_$i = a, __datadog_token_$i2 = String.prototype.substring, __datadog_token_$i2.call(__datadog_token_$i, __datadog_token_$i2)
 
         // a.b.substring.call(c(), 1): reading the member path a.b.substring comes before evaluating c(),
-        // so its assignation goes first. A static X.prototype.method path keeps the historical order.
+        // so its assignation goes first. A static X.prototype.method path (identifiers only) keeps the historical order.
         let member_first = member_expr_opt.is_some_and(|member_expr| {
-            !member_expr
-                .obj
-                .as_member()
-                .is_some_and(FunctionPrototypeTransform::member_prop_is_prototype)
+            !FunctionPrototypeTransform::is_static_prototype_path(member_expr)
         });
         let mut ident_member_first = None;
         if member_first {
